@@ -16,7 +16,8 @@ run_demo() { # prints PASS or FAIL
     [ -z "$pkg" ] && pkg=render
     cp $demo $W/$pkg/zz_seed_demo_test.go
     tname=$(grep -o 'func Test[A-Za-z0-9_]*' $demo | sed 's/func //' | paste -sd'|')
-    if (cd $W/$pkg && timeout 600 go test -vet=off -count=1 -run "^(${tname})\$" . >/tmp/seed-demo-$$.log 2>&1); then echo PASS; else echo FAIL; fi
+    race=""; grep -q '^//go:build race' $demo && race="-race"
+    if (cd $W/$pkg && timeout 900 go test -vet=off $race -count=1 -run "^(${tname})\$" . >/tmp/seed-demo-$$.log 2>&1); then echo PASS; else echo FAIL; fi
     rm -f $W/$pkg/zz_seed_demo_test.go
   else
     m=$(ls -d $DIR/demo* $DIR/main.go 2>/dev/null | head -1)
